@@ -12,7 +12,7 @@ H(s)  == HexToInt(s)
 HB(s) == HexToBytes(s)
 ToAffRaw(h) == ToAff(<<H(HexSlice(h, 0, 32)), H(HexSlice(h, 32, 64)), H(HexSlice(h, 64, 96))>>)
 
-Classes == {"pk_ok", "pk_not_on_curve", "pk_ge_p", "pk_bad_len", "vfy_accept", "vfy_reject", "r_ge_p", "s_ge_n", "s_zero", "R_odd_y",
+Classes == {"pk_x_ge_n", "pk_ok", "pk_not_on_curve", "pk_ge_p", "pk_bad_len", "vfy_accept", "vfy_reject", "r_ge_p", "s_ge_n", "s_zero", "R_odd_y",
             "R_inf", "x_mismatch", "msg_len_0", "msg_len_odd", "msg_len_long", "sig_bad_len", "vector",
             "sign_P_even_R_even", "sign_P_even_R_odd", "sign_P_odd_R_even", "sign_P_odd_R_odd", "aux_zero", "aux_ones",
             "sign_public_api", "sign_reader_fail", "from_point_odd", "from_point_even", "from_point_inf", "from_point_altrep", "from_ecdsa",
@@ -37,7 +37,7 @@ Verdict(ev) ==
     [] ev.ev = "schnorr.NewPub" ->
          LET b == HB(ev["in"])  lf == IF Len(b) = W THEN LiftXEven(OS2IP(b)) ELSE <<FALSE>> IN
          << IF lf[1] THEN ev.ok /\ ev.bytes = ev["in"] /\ ev.point = EncUncompressedH(lf[2]) ELSE ~ev.ok,
-            IF lf[1] THEN {"pk_ok"} ELSE IF Len(b) # W THEN {"pk_bad_len"} ELSE IF ~(OS2IP(b) \prec P) THEN {"pk_ge_p"} ELSE {"pk_not_on_curve"} >>
+            IF lf[1] THEN {"pk_ok"} \cup (IF N \preceq OS2IP(b) THEN {"pk_x_ge_n"} ELSE {}) ELSE IF Len(b) # W THEN {"pk_bad_len"} ELSE IF ~(OS2IP(b) \prec P) THEN {"pk_ge_p"} ELSE {"pk_not_on_curve"} >>
     [] ev.ev = "schnorr.Verify" ->
          LET pk == HB(ev.pk)  msg == HB(ev.msg)  sig == HB(ev.sig) IN
          << ev.out <=> VerifyB(pk, msg, sig),
